@@ -68,7 +68,33 @@ def cases(tier, seed):
         for c in designs.misc_cases() + designs.dup_cases() + designs.constop_cases() + designs.carg_cases((1, 3, 8)):
             out.append(dict(c, K=4, cfg='sym'))
             out.append(dict(c, K=4, cfg='reset', default_value=1))
+    for kind in ('reg', 'input'):
+        out.append({'fam': 'ASSERTD', 'kind': kind, 'K': 3 if tier == 'quick' else 5, 'cfg': 'sym'})
+        out.append({'fam': 'ASSERTD', 'kind': kind, 'K': 3 if tier == 'quick' else 5, 'cfg': 'reset', 'default_value': 0})
     return out
+
+
+class VfAssert(Exception):
+    pass
+
+
+def build_assertd(d):
+    """a design with an rtl_assert that some input sequences trip: a caller that catches the exception and goes on stepping
+    still sees the documented cycle semantics (the failing cycle is complete: traced, latched, written)"""
+    a = pyrtl.Input(2, 'a')
+    cnt = pyrtl.Register(3, 'cnt')
+    cnt.next <<= cnt + a
+    m = pyrtl.MemBlock(bitwidth=3, addrwidth=2, name='m', asynchronous=True)
+    m[a] <<= cnt
+    o = pyrtl.Output(3, 'o')
+    o <<= m[cnt[0:2]] ^ cnt
+    ok = pyrtl.WireVector(1, 'ok')
+    ok <<= (cnt != 2) if d['kind'] == 'reg' else (a != 3)
+    pyrtl.rtl_assert(ok, VfAssert('tripped'))
+    return pyrtl.working_block()
+
+
+designs.register_family('ASSERTD', build_assertd)
 
 
 def _cfg(case):
@@ -96,7 +122,8 @@ def run_case(case, ob, tier):
     def after(sim, t):
         return {w.name: sim.inspect(w.name) for w in block.wirevector_set}
     with sym_env([block]):
-        results = run_sim(block, K, v, kind='sim', after_step=after, assumptions=assume, **cfg)
+        results = run_sim(block, K, v, kind='sim', after_step=after, assumptions=assume,
+                          catch=(VfAssert,) if case.get('fam') == 'ASSERTD' else None, **cfg)
     ob.paths += len(results)
     fault = z3.Or(*sp.faults) if sp.faults else z3.BoolVal(False)
     for r in results:
@@ -153,7 +180,8 @@ def replay(cex):
     K = case['K']
     mv = cex.get('model', {})
     try:
-        trace, mems, sim = concrete.sim_concrete(block, K, mv, kind='sim', **cfg)
+        trace, mems, sim = concrete.sim_concrete(block, K, mv, kind='sim',
+                                                 catch=(VfAssert,) if case.get('fam') == 'ASSERTD' else None, **cfg)
     except Exception as e:
         return True, 'real Simulation raised %r on legal inputs %r' % (e, mv)
     etrace, emems = concrete.spec_concrete(block, K, mv, **cfg)
